@@ -110,6 +110,11 @@ def saveOps (new : Bytes) : List FsOp :=
 def saveOpsAtomic (new : Bytes) : List FsOp :=
   [.openTrunc .tmp, .write .tmp new, .close .tmp, .rename .tmp .live]
 
+/-- A tempting variant ("keep a backup"): move the live file away first, then write the new one in
+place.  Between the rename and the completed write there is no usable file at the live path. -/
+def saveOpsBackupFirst (new : Bytes) : List FsOp :=
+  [.rename .live .tmp, .openTrunc .live, .write .live new, .close .live]
+
 /-! ### The loader, abstractly -/
 
 inductive LoadResult (Reg : Type) where
